@@ -220,6 +220,7 @@ def run(ctx, rep):
     from props import _netdeps
     _netdeps.run(F, rep, "C07.net-dependencies")
     _netdeps.cycle_boundary(F, rep, "C07.cycle-boundary")
+    fresh_activation(F, rep)
     from props import _depfilter
     _depfilter.run(F, rep, "C07")
     fresh_cell_for_new_names_only(F, rep)
@@ -559,3 +560,52 @@ def captured_values_keep_their_kind(F, rep):
         rep.ob("C07.captured-kind", "TypeLayout::%s answers the same for a captured T as for T" % name,
                "violated" if bad else ("undecided" if und else "ok"), "; ".join((bad or und)[:3]), fn.span, fn=fn.path, key="C07.captured-kind|%s" % name)
     rep.floor("C07.captured-kind predicate evaluations", n, 10)
+
+
+def fresh_activation(F, rep, rule="C07.fresh-activation"):
+    """"Each execution of an enclosing function creates a fresh, independent set of variables for the closures it creates."  A function's variables
+    live in the frame `Stack::extend` pushes at the top of `Function::run`, and its parameters and captures in the `Ctx` built for that run: an
+    execution is fresh because it *is* a new `Function::run` with a new `Ctx`.  Two structural facts carry that: (1) inside `Function::run`
+    the instruction pointer is set to a constant only where it is initialised - an assignment of a constant inside the dispatch loop starts
+    the function over in the frame (and cells) of the execution before, which closures of that execution still hold; (2) the arguments and
+    the captured variables of a `Ctx` are written by its constructor only."""
+    f = F.fn("bytecode::function::Function::run")
+    if f is None:
+        raise AnchorMissing("Function::run")
+    ips = [l for l, nm in f.names.items() if nm == "instruction_ptr"]
+    if not ips:
+        # the local that indexes the instruction slice
+        for b in f.blocks:
+            for st in b["s"]:
+                rv = st.get("rv", {})
+                pl = rv.get("ref") or (mir.op_place(rv.get("use")) if "use" in rv else None)
+                for e in (pl or {}).get("p", []):
+                    if e[0] == "index" and "Instruction" in f.locals[pl["l"]]:
+                        ips.append(e[1])
+    ips = sorted(set(ips))
+    if not ips:
+        rep.ob(rule, "Function::run: the instruction pointer is set to a constant only where it is initialised", "undecided", "no instruction pointer local found", f.span,
+               fn=f.path, key=rule + "|no-restart")
+    else:
+        consts = [(bi, rv) for bi, si, dst, rv, s_ in f.assigns() if dst["l"] in ips and not dst.get("p") and "use" in rv and mir.op_const(rv["use"]) is not None]
+        in_loop = [bi for bi, rv in consts if any(bi in f.reachable(sx) for sx in f.succs(bi))]
+        rep.floor(rule + " constant initialisations of the instruction pointer", len(consts), 1)
+        rep.ob(rule, "Function::run: the instruction pointer is set to a constant only where it is initialised (an execution of a function is a new run, in a new frame)",
+               "violated" if in_loop else "ok",
+               ("the instruction pointer is reset to a constant inside the dispatch loop (block %s): the function starts over in the frame of the execution before it, and the "
+                "stores of the new round overwrite the cells closures of the earlier round captured" % in_loop) if in_loop else "", f.span, fn=f.path, key=rule + "|no-restart")
+    a = F.adt("bytecode::context::Ctx")
+    if a is None:
+        raise AnchorMissing("Ctx")
+    per_call = [x["name"] for x in a["variants"][0]["fields"] if x["name"] in ("args", "callback_state")]
+    rep.floor(rule + " per-call fields of Ctx", len(per_call), 2)
+    writers = []
+    for g in F.crates["bytecode"].fns:
+        for bi, si, dst, rv, s_ in g.assigns():
+            for e in dst.get("p", []):
+                if e[0] == "field" and len(e) > 2 and e[2] in per_call and "context::Ctx" in g.locals[dst["l"]] and e is [x for x in dst["p"] if x[0] == "field"][-1]:
+                    writers.append((g, e[2], s_.get("sp")))
+    rep.ob(rule, "the arguments and the captured variables of a Ctx are given to it when it is built and never replaced", "violated" if writers else "ok",
+           ("%s assigns Ctx.%s: a context is handed to another call of the function, which then runs in the frame of the call before it"
+            % (mir.short(writers[0][0].path), writers[0][1])) if writers else "", writers[0][2] if writers else None, fn=(writers[0][0].path if writers else f.path),
+           key=rule + "|ctx-per-call")
